@@ -119,6 +119,29 @@ def choice_list_obligations(ctx, rule, rid):
                vc.loc(), why_fail="; ".join(bad[:3]))
 
 
+def warning_census_rule(ctx, prop="C20", rid="C20.R6"):
+    """Which advisories exist is part of the contract (same form, same warnings): the set of warning messages the
+    conversion path can emit is compared, by message skeleton, with the table frozen from the pinned tree
+    (sa/warnings.json, regenerated by tools/gen_warnings.py when a `fix:` commit adds or rewords one)."""
+    import json
+    import os
+    from ..warncensus import warning_skeletons
+    r = Rule(prop, rid, "no advisory exists that the reference table does not list", floor=10,
+             necessary="a new kind of warning makes forms that converted silently (or with other warnings) warn differently")
+    table = json.load(open(os.path.join(os.path.dirname(os.path.dirname(os.path.abspath(__file__))), "warnings.json"), encoding="utf-8"))
+    known = set(table["skeletons"])
+    sk = warning_skeletons(ctx)
+    for k, sites in sorted(sk.items()):
+        fi, c = sites[0]
+        if k == "{}":
+            r.check(len(sites) <= table.get("opaque_sites", 0), "warning sites whose text is computed elsewhere", f"{len(sites)} such site(s), as in the reference", fi.loc(c),
+                    why_fail=f"{len(sites)} sites append a message built elsewhere; the reference has {table.get('opaque_sites', 0)}: " + "; ".join(f_.qualname for f_, _c in sites))
+            continue
+        r.check(k in known, f"warning `{k[:70]}`", "is one of the advisories of the reference table", fi.loc(c),
+                why_fail=f"new advisory emitted by {fi.qualname}: forms that met its condition used to convert without it")
+    return r
+
+
 def run(ctx):
     repo = ctx.repo
     it0 = ctx.consts.interp
@@ -244,6 +267,7 @@ def run(ctx):
     from ..rowloop import row_prologue_obligations
     row_prologue_obligations(ctx, r2, "C20.R2")
     rules += [r2, r3]
+    rules.append(warning_census_rule(ctx))
 
     # ------------------------------------------------------------------ R4
     r4 = Rule("C20", "C20.R4", "misspelling and IANA checks: thresholds, exclusions and wiring", floor=16,
